@@ -18,6 +18,7 @@ CONSTANTS
   Dtypes = {"f", "c"}
   WildDtypes = {"f"}
   Ops = {}
+  OpForms = {"csrwild", "csr", "coo", "empty", "diag", "eye"}
   MaxSteps = 0
   MaxE = 2
   StrictOrder = TRUE
